@@ -29,7 +29,8 @@ func (rt *runtime) cmplEvaluateNodeStatement(node nodeStatement) Value {
 		value := rt.cmplEvaluateNodeStatementList(node.list)
 		if value.kind == valueResult {
 			if value.evaluateBreak(labels) == resultBreak {
-				return emptyValue
+				// (normal, V, empty): the value produced before the break (ECMA 262 12.12).
+				return value.completionValue()
 			}
 		}
 		return value
@@ -121,7 +122,7 @@ func (rt *runtime) cmplEvaluateNodeStatementList(list []nodeStatement) Value {
 		value := rt.cmplEvaluateNodeStatement(node)
 		switch value.kind {
 		case valueResult:
-			return value
+			return value.withCompletionValue(result)
 		case valueEmpty:
 		default:
 			// We have getValue here to (for example) trigger a
@@ -152,8 +153,14 @@ resultBreak:
 				case resultReturn:
 					return value
 				case resultBreak:
+					if carried := value.completionValue(); !carried.isEmpty() {
+						result = carried
+					}
 					break resultBreak
 				case resultContinue:
+					if carried := value.completionValue(); !carried.isEmpty() {
+						result = carried
+					}
 					goto resultContinue
 				}
 			case valueEmpty:
@@ -228,9 +235,15 @@ func (rt *runtime) cmplEvaluateNodeForInStatement(node *nodeForInStatement) Valu
 						returned = true
 						return false
 					case resultBreak:
+						if carried := value.completionValue(); !carried.isEmpty() {
+							enumerateValue = carried
+						}
 						obj = nil
 						return false
 					case resultContinue:
+						if carried := value.completionValue(); !carried.isEmpty() {
+							enumerateValue = carried
+						}
 						return true
 					}
 				case valueEmpty:
@@ -303,8 +316,14 @@ resultBreak:
 				case resultReturn:
 					return value
 				case resultBreak:
+					if carried := value.completionValue(); !carried.isEmpty() {
+						result = carried
+					}
 					break resultBreak
 				case resultContinue:
+					if carried := value.completionValue(); !carried.isEmpty() {
+						result = carried
+					}
 					goto resultContinue
 				}
 			case valueEmpty:
@@ -363,6 +382,9 @@ func (rt *runtime) cmplEvaluateNodeSwitchStatement(node *nodeSwitchStatement) Va
 						return value
 					case resultBreak:
 						// (normal, V, empty): the value produced so far is kept (ECMA 262 12.11).
+						if carried := value.completionValue(); !carried.isEmpty() {
+							result = carried
+						}
 						return result
 					}
 				case valueEmpty:
@@ -436,8 +458,14 @@ resultBreakContinue:
 				case resultReturn:
 					return value
 				case resultBreak:
+					if carried := value.completionValue(); !carried.isEmpty() {
+						result = carried
+					}
 					break resultBreakContinue
 				case resultContinue:
+					if carried := value.completionValue(); !carried.isEmpty() {
+						result = carried
+					}
 					continue resultBreakContinue
 				}
 			case valueEmpty:
